@@ -3,10 +3,8 @@ package c14
 
 import (
 	"context"
-	"encoding/json"
 	"fmt"
 	"math"
-	"sort"
 	"strings"
 	"time"
 
@@ -15,6 +13,7 @@ import (
 	"github.com/samsarahq/thunder/graphql/introspection"
 	"github.com/samsarahq/thunder/graphql/schemabuilder"
 	"verif/explore"
+	"verif/fix/advert"
 	"verif/fix/gqlfix"
 	"verif/harness/reg"
 	"vrt/rt"
@@ -151,354 +150,66 @@ func buildFixture() *schemabuilder.Schema {
 	return s
 }
 
-// ---------- advertised schema (from introspection JSON only) ----------
-
-type typeRef struct {
-	Kind   string   `json:"kind"`
-	Name   string   `json:"name"`
-	OfType *typeRef `json:"ofType"`
-}
-
-type inputValue struct {
-	Name string  `json:"name"`
-	Type typeRef `json:"type"`
-}
-
-type fieldDef struct {
-	Name string       `json:"name"`
-	Args []inputValue `json:"args"`
-	Type typeRef      `json:"type"`
-}
-
-type typeDef struct {
-	Kind          string                  `json:"kind"`
-	Name          string                  `json:"name"`
-	Fields        []fieldDef              `json:"fields"`
-	InputFields   []inputValue            `json:"inputFields"`
-	EnumValues    []struct{ Name string } `json:"enumValues"`
-	PossibleTypes []typeRef               `json:"possibleTypes"`
-}
-
-type advertised struct {
-	types map[string]*typeDef
-	query string
-}
-
-func loadAdvertised(b []byte) (*advertised, error) {
-	var doc struct {
-		Schema struct {
-			QueryType struct{ Name string } `json:"queryType"`
-			Types     []*typeDef            `json:"types"`
-		} `json:"__schema"`
-	}
-	if err := json.Unmarshal(b, &doc); err != nil {
-		return nil, err
-	}
-	a := &advertised{types: map[string]*typeDef{}, query: doc.Schema.QueryType.Name}
-	for _, t := range doc.Schema.Types {
-		a.types[t.Name] = t
-		sort.Slice(t.Fields, func(i, j int) bool { return t.Fields[i].Name < t.Fields[j].Name })
-	}
-	return a, nil
-}
-
-func (r *typeRef) named() *typeRef {
-	for r.OfType != nil {
-		r = r.OfType
-	}
-	return r
-}
-
-// literal renders a minimal valid GraphQL literal for an advertised input type.
-func (a *advertised) literal(r *typeRef, depth int) string {
-	switch r.Kind {
-	case "NON_NULL":
-		return a.literal(r.OfType, depth)
-	case "LIST":
-		return "[" + a.literal(r.OfType, depth) + "]"
-	case "ENUM":
-		return a.types[r.Name].EnumValues[0].Name
-	case "INPUT_OBJECT":
-		var parts []string
-		for _, f := range a.types[r.Name].InputFields {
-			if f.Type.Kind == "NON_NULL" || depth < 1 {
-				parts = append(parts, f.Name+": "+a.literal(&f.Type, depth+1))
-			}
-		}
-		return "{" + strings.Join(parts, ", ") + "}"
-	}
-	switch {
-	case strings.HasPrefix(r.Name, "int"), strings.HasPrefix(r.Name, "uint"):
-		return "1"
-	case strings.HasPrefix(r.Name, "float"):
-		return "1.5"
-	case r.Name == "bool":
-		return "true"
-	case r.Name == "Time":
-		return `"2020-01-02T03:04:05Z"`
-	case r.Name == "bytes":
-		return `"YQ=="`
-	}
-	return `"s"`
-}
-
-func (a *advertised) call(f *fieldDef) string {
-	if len(f.Args) == 0 {
-		return f.Name
-	}
-	var parts []string
-	for _, arg := range f.Args {
-		parts = append(parts, arg.Name+": "+a.literal(&arg.Type, 0))
-	}
-	return f.Name + "(" + strings.Join(parts, ", ") + ")"
-}
-
-func isLeaf(t *typeDef) bool { return t.Kind == "SCALAR" || t.Kind == "ENUM" }
-
-// sel is a selection tree over the advertised schema.
-type sel struct {
-	alias  string
-	field  *fieldDef         // nil for __typename
-	sub    []*sel            // object sub-selection
-	onType map[string][]*sel // union: per member type
-	raw    string            // ill-formed fragment text (printed verbatim), no conformance info
-}
-
-func (a *advertised) print(ss []*sel) string {
-	var parts []string
-	for _, s := range ss {
-		if s.raw != "" {
-			parts = append(parts, s.raw)
-			continue
-		}
-		if s.field == nil {
-			parts = append(parts, s.alias+": __typename")
-			continue
-		}
-		txt := s.alias + ": " + a.call(s.field)
-		if s.sub != nil {
-			txt += " { " + a.print(s.sub) + " }"
-		}
-		if s.onType != nil {
-			var ks []string
-			for k := range s.onType {
-				ks = append(ks, k)
-			}
-			sort.Strings(ks)
-			txt += " { ut: __typename"
-			for _, k := range ks {
-				txt += " ... on " + k + " { " + a.print(s.onType[k]) + " }"
-			}
-			txt += " }"
-		}
-		parts = append(parts, txt)
-	}
-	return strings.Join(parts, " ")
-}
-
-// minimal returns a minimal valid selection for a field (scalars for objects, all members for unions).
-func (a *advertised) selectField(f *fieldDef, alias string, depth int) *sel {
-	t := a.types[f.Type.named().Name]
-	s := &sel{alias: alias, field: f}
-	switch t.Kind {
-	case "OBJECT":
-		s.sub = a.scalars(t, depth)
-	case "UNION":
-		s.onType = map[string][]*sel{}
-		for _, pt := range t.PossibleTypes {
-			s.onType[pt.Name] = a.scalars(a.types[pt.Name], depth)
-		}
-	}
-	return s
-}
-
-// scalars selects every leaf field of an object (and, while depth allows, its composite fields minimally).
-func (a *advertised) scalars(t *typeDef, depth int) []*sel {
-	var out []*sel
-	out = append(out, &sel{alias: "tn"})
-	for i := range t.Fields {
-		f := &t.Fields[i]
-		ft := a.types[f.Type.named().Name]
-		if isLeaf(ft) {
-			out = append(out, &sel{alias: f.Name, field: f})
-		} else if depth > 0 {
-			out = append(out, a.selectField(f, f.Name, depth-1))
-		}
-	}
-	return out
-}
-
-// ---------- conformance ----------
-
-func scalarOK(name string, v interface{}) bool {
-	switch {
-	case strings.HasPrefix(name, "int"), strings.HasPrefix(name, "uint"):
-		f, ok := v.(float64)
-		return ok && f == math.Trunc(f)
-	case strings.HasPrefix(name, "float"):
-		_, ok := v.(float64)
-		return ok
-	case name == "bool":
-		_, ok := v.(bool)
-		return ok
-	}
-	_, ok := v.(string)
-	return ok
-}
-
-func (a *advertised) conform(r *typeRef, s *sel, v interface{}, path string, listEntry bool) string {
-	switch r.Kind {
-	case "NON_NULL":
-		if v == nil {
-			if listEntry {
-				return ""
-			}
-			return path + ": null for a non-null type"
-		}
-		return a.conform(r.OfType, s, v, path, false)
-	}
-	if v == nil {
-		return ""
-	}
-	switch r.Kind {
-	case "LIST":
-		l, ok := v.([]interface{})
-		if !ok {
-			return fmt.Sprintf("%s: %T where a list is advertised", path, v)
-		}
-		for i, el := range l {
-			if e := a.conform(r.OfType, s, el, fmt.Sprintf("%s[%d]", path, i), true); e != "" {
-				return e
-			}
-		}
-		return ""
-	case "SCALAR":
-		if !scalarOK(r.Name, v) {
-			return fmt.Sprintf("%s: %v (%T) is not a JSON value of scalar %s", path, v, v, r.Name)
-		}
-		return ""
-	case "ENUM":
-		str, ok := v.(string)
-		if !ok {
-			return fmt.Sprintf("%s: %v is not an enum string", path, v)
-		}
-		for _, ev := range a.types[r.Name].EnumValues {
-			if ev.Name == str {
-				return ""
-			}
-		}
-		return fmt.Sprintf("%s: %q is not among the advertised values of %s", path, str, r.Name)
-	case "OBJECT":
-		return a.conformObject(a.types[r.Name], s.sub, v, path)
-	case "UNION":
-		m, ok := v.(map[string]interface{})
-		if !ok {
-			return fmt.Sprintf("%s: %T where a union object is advertised", path, v)
-		}
-		tn, _ := m["ut"].(string)
-		sub, ok := s.onType[tn]
-		if !ok {
-			return fmt.Sprintf("%s: __typename %q is not a possible type of %s", path, tn, r.Name)
-		}
-		rest := map[string]interface{}{}
-		for k, x := range m {
-			if k != "ut" {
-				rest[k] = x
-			}
-		}
-		return a.conformObject(a.types[tn], sub, rest, path)
-	}
-	return path + ": unknown advertised kind " + r.Kind
-}
-
-func (a *advertised) conformObject(t *typeDef, ss []*sel, v interface{}, path string) string {
-	m, ok := v.(map[string]interface{})
-	if !ok {
-		return fmt.Sprintf("%s: %T where object %s is advertised", path, v, t.Name)
-	}
-	want := map[string]bool{}
-	for _, s := range ss {
-		want[s.alias] = true
-		x, present := m[s.alias]
-		if !present {
-			return fmt.Sprintf("%s: selected field %q is missing from the response", path, s.alias)
-		}
-		if s.field == nil {
-			if x != t.Name {
-				return fmt.Sprintf("%s.%s: __typename %v, want %s", path, s.alias, x, t.Name)
-			}
-			continue
-		}
-		if e := a.conform(&s.field.Type, s, x, path+"."+s.alias, false); e != "" {
-			return e
-		}
-	}
-	for k := range m {
-		if !want[k] && k != "__key" {
-			return fmt.Sprintf("%s: unselected key %q in the response", path, k)
-		}
-	}
-	return ""
-}
-
 // ---------- enumeration ----------
 
 type qcase struct {
 	text       string
-	root       []*sel
+	root       []*advert.Sel
 	wellFormed bool
 	kind       string
 }
 
-func (a *advertised) generate(depth int) []qcase {
+func generate(a *advert.Advertised, depth int) []qcase {
 	var out []qcase
-	q := a.types[a.query]
-	add := func(root []*sel, ok bool, kind string) {
-		out = append(out, qcase{text: "{ " + a.print(root) + " }", root: root, wellFormed: ok, kind: kind})
+	q := a.Types[a.Query]
+	add := func(root []*advert.Sel, ok bool, kind string) {
+		out = append(out, qcase{text: "{ " + a.Print(root) + " }", root: root, wellFormed: ok, kind: kind})
 	}
 	// walk every path of composite fields up to the depth; at its end select (a) all leaves, (b) each field alone
-	var walk func(t *typeDef, wrap func([]*sel) []*sel, d int)
-	walk = func(t *typeDef, wrap func([]*sel) []*sel, d int) {
-		add(wrap(a.scalars(t, 0)), true, "all-leaves")
-		add(wrap(a.scalars(t, 1)), true, "all-fields")
+	var walk func(t *advert.TypeDef, wrap func([]*advert.Sel) []*advert.Sel, d int)
+	walk = func(t *advert.TypeDef, wrap func([]*advert.Sel) []*advert.Sel, d int) {
+		add(wrap(a.Scalars(t, 0)), true, "all-leaves")
+		add(wrap(a.Scalars(t, 1)), true, "all-fields")
 		for i := range t.Fields {
 			f := &t.Fields[i]
-			ft := a.types[f.Type.named().Name]
-			add(wrap([]*sel{a.selectField(f, "x", 0)}), true, "single-field")
-			add(wrap([]*sel{a.selectField(f, "x", 0), a.selectField(f, "y", 0)}), true, "aliased-twice")
+			ft := a.Types[f.Type.Named().Name]
+			add(wrap([]*advert.Sel{a.SelectField(f, "x", 0)}), true, "single-field")
+			add(wrap([]*advert.Sel{a.SelectField(f, "x", 0), a.SelectField(f, "y", 0)}), true, "aliased-twice")
 			// ill-formed variants at this position
-			if isLeaf(ft) {
-				add(wrap([]*sel{{raw: a.call(f) + " { bogus }"}}), false, "selection-on-leaf")
+			if advert.IsLeaf(ft) {
+				add(wrap([]*advert.Sel{{Raw: a.Call(f) + " { bogus }"}}), false, "selection-on-leaf")
 			} else {
-				add(wrap([]*sel{{raw: a.call(f)}}), false, "no-selection-on-composite")
+				add(wrap([]*advert.Sel{{Raw: a.Call(f)}}), false, "no-selection-on-composite")
 				if ft.Kind == "OBJECT" {
-					add(wrap([]*sel{{raw: a.call(f) + " { noSuchField }"}}), false, "unknown-field")
+					add(wrap([]*advert.Sel{{Raw: a.Call(f) + " { noSuchField }"}}), false, "unknown-field")
 				} else {
-					add(wrap([]*sel{{raw: a.call(f) + " { ... on " + ft.PossibleTypes[0].Name + " { noSuchField } }"}}), false, "unknown-field")
-					add(wrap([]*sel{{raw: a.call(f) + " { noSuchField }"}}), false, "unknown-field")
+					add(wrap([]*advert.Sel{{Raw: a.Call(f) + " { ... on " + ft.PossibleTypes[0].Name + " { noSuchField } }"}}), false, "unknown-field")
+					add(wrap([]*advert.Sel{{Raw: a.Call(f) + " { noSuchField }"}}), false, "unknown-field")
 				}
 			}
 			if d > 0 && ft.Kind == "OBJECT" {
 				f := f
-				walk(ft, func(inner []*sel) []*sel { return wrap([]*sel{{alias: f.Name, field: f, sub: inner}}) }, d-1)
+				walk(ft, func(inner []*advert.Sel) []*advert.Sel {
+					return wrap([]*advert.Sel{{Alias: f.Name, Field: f, Sub: inner}})
+				}, d-1)
 			}
 			if d > 0 && ft.Kind == "UNION" {
 				for _, pt := range ft.PossibleTypes {
 					f, pt := f, pt
-					walk(a.types[pt.Name], func(inner []*sel) []*sel {
-						on := map[string][]*sel{}
+					walk(a.Types[pt.Name], func(inner []*advert.Sel) []*advert.Sel {
+						on := map[string][]*advert.Sel{}
 						for _, o := range ft.PossibleTypes {
-							on[o.Name] = []*sel{{alias: "tn"}}
+							on[o.Name] = []*advert.Sel{{Alias: "tn"}}
 						}
 						on[pt.Name] = inner
-						return wrap([]*sel{{alias: f.Name, field: f, onType: on}})
+						return wrap([]*advert.Sel{{Alias: f.Name, Field: f, OnType: on}})
 					}, d-1)
 				}
 			}
 		}
-		add(wrap([]*sel{{raw: "noSuchField"}}), false, "unknown-field")
+		add(wrap([]*advert.Sel{{Raw: "noSuchField"}}), false, "unknown-field")
 	}
-	walk(q, func(s []*sel) []*sel { return s }, depth)
+	walk(q, func(s []*advert.Sel) []*advert.Sel { return s }, depth)
 	return out
 }
 
@@ -510,7 +221,7 @@ func run(rp *explore.Report, tier string) {
 	if err != nil {
 		panic(err)
 	}
-	adv, err := loadAdvertised(raw)
+	adv, err := advert.Load(raw)
 	if err != nil {
 		panic(err)
 	}
@@ -519,7 +230,7 @@ func run(rp *explore.Report, tier string) {
 	if tier == "thorough" {
 		depth = 3
 	}
-	cases := adv.generate(depth)
+	cases := generate(adv, depth)
 	var k int64
 	fail := func(clause, class, item, format string, a ...interface{}) {
 		rp.AddViolation(&explore.Violation{Item: item, Signature: "c14/" + clause + "/" + class, Stable: true,
@@ -556,12 +267,12 @@ func run(rp *explore.Report, tier string) {
 				fail("accepted-cannot-go-wrong", c.kind, c.text, "execution of an accepted query failed (scheduler %d): %v", si, err)
 				continue
 			}
-			if e := adv.conformObject(adv.types[adv.query], c.root, res, "$"); e != "" {
+			if e := adv.ConformObject(adv.Types[adv.Query], c.root, res, "$"); e != "" {
 				fail("response-conforms", c.kind, c.text, "response %s does not conform to the advertised schema: %s", gqlfix.JS(res), e)
 			}
 		}
 	}
-	rp.AddOutcome(fmt.Sprintf("types=%d cases=%d", len(adv.types), len(cases)))
+	rp.AddOutcome(fmt.Sprintf("types=%d cases=%d", len(adv.Types), len(cases)))
 }
 
 func init() {
